@@ -5,6 +5,9 @@ fn main() {
     if args.get(1).map(|s| s.as_str()) == Some("c17-child") {
         std::process::exit(h_proj::c17::child_main(&args[2..]));
     }
+    if args.get(1).map(|s| s.as_str()) == Some("c20-child") {
+        std::process::exit(h_uplc::c20::child_main(&args[2..]));
+    }
     if args.get(1).map(|s| s.as_str()) == Some("c09-child") {
         std::process::exit(h_proj::c09::child_main(&args[2..]));
     }
